@@ -141,10 +141,12 @@ GroupAgrees(o, e) ==
 GroupsAgree(os, es) == Len(os) = Len(es) /\ \A i \in 1..Len(es) : GroupAgrees(os[i], es[i])
 
 \* one run of the compiler: the previews (if any), then the report, with one line cache
-RepAgrees(r) ==
+RepExpected(r) ==
   LET pv == IF r.preview THEN Preview(T, Msgs, FLenT, ColT, CacheInit) ELSE [cs |-> CacheInit, out |-> << >>] IN
-  /\ GroupsAgree(r.pre, pv.out)
-  /\ GroupsAgree(r.groups, Report(T, Msgs, r.sort, FLenT, ColT, pv.cs).out)
+  [pre |-> pv.out, groups |-> Report(T, Msgs, r.sort, FLenT, ColT, pv.cs).out]
+
+RepAgrees(r) ==
+  LET e == RepExpected(r) IN GroupsAgree(r.pre, e.pre) /\ GroupsAgree(r.groups, e.groups)
 
 \* evaluated only when the messages themselves are the planted ones (Matches)
 RepMatches == Matches => \A k \in 1..Len(Case.reps) : RepAgrees(Case.reps[k])
@@ -155,10 +157,11 @@ RepFaithful ==
      Report(T, Msgs, sort, FLenT, LAMBDA m : SposChar(m.p), CacheInit).out =
         ReqReport(Intended, sort, FLenT, LAMBDA w : ColFun(Packer, w.c))
 
-\* groups of the design's sorted report that name no file although their position is an ordinary one
+\* groups of the design's reports (in the styles of the case) that name no file although their position is an
+\* ordinary one
+Headless(gs) == Cardinality({i \in 1..Len(gs) : ~gs[i].head /\ gs[i].leads[1].ln # -1})
 NoHead == IF Matches
-          THEN LET rep == Report(T, Msgs, TRUE, FLenT, ColT, CacheInit).out IN
-               Cardinality({i \in 1..Len(rep) : ~rep[i].head /\ rep[i].leads[1].ln # -1})
+          THEN FoldLeft(LAMBDA n, r : LET e == RepExpected(r) IN n + Headless(e.pre) + Headless(e.groups), 0, Case.reps)
           ELSE 0
 
 \* planted positions the configuration's own design does not report faithfully
